@@ -154,19 +154,32 @@ let names_of sx = List.map name_of (list_of sx)
 let ivs_of sx = List.map (function L [nm; v] -> (name_of nm, operand_of v) | _ -> failwith "iv") (list_of sx)
 let kind_of k extra = match k with "model" -> CModel | "linker" -> CLinker (nat_of_int extra) | _ -> failwith "kind"
 
+(* final reindex onto another span: the model's reindex_with on the final state *)
+let final_state stepf s0 opl = List.fold_left (fun s o -> match o with None -> s | Some o -> fst (stepf o s)) s0 opl
+let jreindex rn rx sfin =
+  match rx with
+  | A "-" -> ""
+  | rx -> (match reindex_with rn (np_fill sfin.kind) (List.map z_of_sx (list_of rx)) sfin with
+           | Ret s' -> ",\"reindex\":" ^ jstate s'
+           | Raise e -> ",\"reindex\":" ^ jstr (exn_name e))
 let handle line =
   match parse (tokenize line) with
-  | L [A "vc"; sp; st; ops] ->
+  | L [A "vc"; sp; st; ops; rx] ->
       let s0 = init_vc (List.map z_of_sx (list_of sp)) (int_of_sx st <> 0) in
-      "{\"init\":\"ok\",\"st0\":" ^ jstate s0 ^ ",\"steps\":[" ^ String.concat "," (run_ops np_step read s0 (List.map op_of_opt (list_of ops))) ^ "]}"
-  | L [A (("model" | "linker") as k); extra; sp; st; d; dflt; nms; ivs; ops] ->
+      let opl = List.map op_of_opt (list_of ops) in
+      "{\"init\":\"ok\",\"st0\":" ^ jstate s0 ^ ",\"steps\":[" ^ String.concat "," (run_ops np_step read s0 opl) ^ "]"
+      ^ jreindex (fun x -> x) rx (final_state np_step s0 opl) ^ "}"
+  | L [A (("model" | "linker") as k); extra; sp; st; d; dflt; nms; ivs; ops; rx] ->
       let dr = match dreq_of d with Some x -> x | None -> failwith "dreq" in
       let (s0, out) = np_init_model (kind_of k (int_of_sx extra)) (List.map z_of_sx (list_of sp)) (int_of_sx st <> 0) dr
           (operand_of dflt) (names_of nms) (ivs_of ivs) in
       (match out with
        | Raise _ -> "{\"init\":" ^ jout out ^ ",\"steps\":[]}"
-       | Ret _ -> "{\"init\":\"ok\",\"st0\":" ^ jstate s0 ^ ",\"steps\":[" ^ String.concat "," (run_ops np_step read s0 (List.map op_of_opt (list_of ops))) ^ "]}")
-  | L [A "alias"; A k; extra; al; pref; sp; st; d; dflt; nms; ivs; ops; reads] ->
+       | Ret _ ->
+           let opl = List.map op_of_opt (list_of ops) in
+           "{\"init\":\"ok\",\"st0\":" ^ jstate s0 ^ ",\"steps\":[" ^ String.concat "," (run_ops np_step read s0 opl) ^ "]"
+           ^ jreindex (fun x -> x) rx (final_state np_step s0 opl) ^ "}")
+  | L [A "alias"; A k; extra; al; pref; sp; st; d; dflt; nms; ivs; ops; reads; rx] ->
       (* AliasMixin over a model / linker: constructor, ops through aliases, renamed export *)
       let dr = match dreq_of d with Some x -> x | None -> failwith "dreq" in
       (match alias_construct (aliases_of al) (names_of pref) with
@@ -189,7 +202,7 @@ let handle line =
                     | L [A "a"; nm] -> jres (alias_getattr_var am (name_of nm) sfin)
                     | _ -> failwith "read") (list_of reads) in
                 "{\"init\":\"ok\"," ^ amj ^ ",\"st0\":" ^ jstate s0 ^ ",\"steps\":[" ^ String.concat "," steps ^ "],\"export\":" ^ ren
-                ^ ",\"reads\":[" ^ String.concat "," rds ^ "]}"))
+                ^ ",\"reads\":[" ^ String.concat "," rds ^ "]" ^ jreindex (resolve am) rx sfin ^ "}"))
   | _ -> failwith "case"
 
 let () =
